@@ -680,7 +680,8 @@ fn gen_vals(n: usize, max_depth: usize, out: &str) -> Value {
         let (fs, fs_detail) = observe(catch(|| Variable::from_str(&text)), &v);
         let (pg, pg_detail) = observe(run_program(&interp, &text), &v);
         writeln!(f, "{}", json!({"v": val_for_tlc(&v), "toks": toks_for_tlc(&tokenize_val(&text)), "text": text,
-            "from_str": fs, "prog": pg, "from_str_detail": fs_detail, "prog_detail": pg_detail})).unwrap();
+            "from_str": fs, "prog": pg,
+            "detail": if fs_detail.is_null() && pg_detail.is_null() { String::new() } else { format!("{fs_detail} {pg_detail}") }})).unwrap();
         records += 1;
     }
     f.flush().unwrap();
